@@ -75,7 +75,7 @@ Proof. vm_compute. reflexivity. Qed.
 (* the third disjunct of c10_rejected_iff is inhabited *)
 Example ex_rejected_103_conditions :
   s_status ex_waiting = SWaiting /\
-  exists wi pos n w, waiting_run ex_waiting = Some wi /\ ~ flow_missing ex_assets ex_waiting wi /\
+  exists wi pos n w, waiting_run ex_waiting = Some wi /\ ~ flow_unusable ex_assets ex_waiting wi /\
                      ~ resume_limit_reached ex_assets ex_waiting /\
                      resume_site ex_assets ex_waiting wi (Some (pos, n, w)) /\ accepts w RDial = false.
 Proof.
@@ -99,6 +99,18 @@ Proof. apply site_gone. reflexivity. Qed.
 
 Example ex_flow_missing_fails : exists x',
   resume_session ex_assets_no_child ex_waiting (RMsg [97]) [] = Resumed (ROk x') /\
+  s_status (session_ x') = SFailed /\ map r_status (s_runs (session_ x')) = [RFailed; RFailed].
+Proof. vm_compute. eexists; repeat split. Qed.
+
+(* the waiting run's flow was re-saved as a voice flow; the session was not triggered with a call: failed, not resumed *)
+Definition ex_assets_child_voice : assets :=
+  {| a_flows := [ex_flow1; {| f_id := f_id ex_flow2; f_type := 2; f_nodes := f_nodes ex_flow2 |}]; a_opts := ex_opts |}.
+
+Example ex_voice_without_call : flow_unusable ex_assets_child_voice ex_waiting 1 /\ ~ flow_missing ex_assets_child_voice ex_waiting 1.
+Proof. split; [reflexivity|vm_compute; discriminate]. Qed.
+
+Example ex_voice_without_call_fails : exists x',
+  resume_session ex_assets_child_voice ex_waiting (RMsg [97]) [] = Resumed (ROk x') /\
   s_status (session_ x') = SFailed /\ map r_status (s_runs (session_ x')) = [RFailed; RFailed].
 Proof. vm_compute. eexists; repeat split. Qed.
 
